@@ -271,7 +271,7 @@ def _proportional(p1, p2, stop) -> bool:
                 if a != b:
                     return False
                 continue
-            r = Fraction(a, b)
+            r = Fraction(a) / Fraction(b)
             if coef is None:
                 coef = r
             elif r != coef:
